@@ -396,6 +396,11 @@ func runAttCaseObs(want string, obs func(h *sim.Hub, what string)) func(ci inter
 				votedNonce[vk] = true
 				voted[key] = true
 				lastByVal[key] = nonce
+				// the resume point orchestrators ask for is the validator's last claimed nonce
+				if q, err := h.K.LastSubmittedExternalEvent(sdk.WrapSDKContext(h.Ctx()), &mtypes.LastSubmittedExternalEventRequest{Address: signer.String(), ChainId: ch}); err != nil || q.EventNonce != nonce {
+					a.fail("C03", "resume-point-query", "validator %d on %s claimed nonce %d, LastSubmittedExternalEvent answers %v (%v)", v, ch, nonce, q, err)
+					break
+				}
 				k := nv{ch, nonce, op.Variant}
 				if voters[k] == nil {
 					voters[k] = map[int]bool{}
